@@ -814,9 +814,10 @@ def shrink(spec, pop_seed, ops, key):
     while changed:
         changed = False
         for i in range(len(ops) - 2, -1, -1):
+            if ops[i]['k'] == 'qinit': continue            # re-inserted by every replay
             cand = ops[:i] + ops[i + 1:]
             v = first_violation(spec, pop_seed, cand)
-            if v is not None and v[1] == key:
+            if v is not None and v[1] == key and len(v[3]) < len(ops):
                 ops = v[3]; changed = True; break
     return ops
 
